@@ -319,12 +319,18 @@ static void mf_check(const Json& c, Out& o) {
         if (flt.order() != n) o.fail("MedianFilter:order", fmt("order()=%d for n=%d", flt.order(), n));
         Rng fr(mix(c.getu("seed"), 0xF4A3E));
         int pos = 0, guard = 0;
+        // "fork" > 0: from that stream position on a COPY of the filter object carries the stream on, while the original is fed other
+        // data in between: the copy's window is its own history (what the original had seen up to the copy, then the copy's inputs)
+        const int fork = c.geti("fork", 0);
+        std::unique_ptr<MedianFilter> cp;
         while (pos < L) {
             int len = next_frame(fr, fmode, n, L - pos);
             if (len == 0 && ++guard > 4 * L) len = 1;
             arr_real frame(len);
             for (int i = 0; i < len; ++i) frame[i] = xv[size_t(pos + i)];
-            arr_real y = (pos & 1) ? flt(frame) : flt.process(frame);
+            if (fork > 0 && pos >= fork && !cp) cp = std::make_unique<MedianFilter>(flt);
+            if (cp) { arr_real decoy(len + 1); for (int i = 0; i <= len; ++i) decoy[i] = 5.0 * fr.gauss() - 2.0; (void)flt.process(decoy); }
+            arr_real y = cp ? ((pos & 1) ? (*cp)(frame) : cp->process(frame)) : ((pos & 1) ? flt(frame) : flt.process(frame));
             if (y.size() != len) { o.fail("MedianFilter:size", fmt("process of %d samples returned %d", len, y.size())); return; }
             for (int i = 0; i < len; ++i) got.push_back(y[i]);
             pos += len;
@@ -350,6 +356,7 @@ static void mf_check(const Json& c, Out& o) {
     o.label(std::string("framing:") + frame_name(fmode));
     o.label("init-mode:" + std::to_string(initm));
     if (n % 2 == 0 && mid_differs > 0) o.label("even order with two different middle values");
+    if (c.geti("fork", 0) > 0) o.label("stream carried on by a copy of the filter object");
     bool trivial = true;
     for (auto v : xv) if (!(v == init)) trivial = false;
     if (!trivial && L >= 2) o.nontrivial(c.has("base") ? key_of(4, n, L, c.geti("base"), c.getu("code"), initm) : key_of(5, n, L, c.geti("cls"), initm, fmode));
@@ -379,7 +386,9 @@ static void mf_gen(Ctx& ctx) {
     ctx.rc("random", ctx.by_tier(600000, 6000000), [&]() {
         int n = pick(3, 64);
         int L = pick_log(1, 600);
-        return Json::object().set("n", n).set("len", L).set("cls", pick(0, K_NCONTENT - 1)).set("init", pick(0, 3)).set("frame", pick(0, 5)).set("seed", (long long)seed64());
+        Json cj = Json::object().set("n", n).set("len", L).set("cls", pick(0, K_NCONTENT - 1)).set("init", pick(0, 3)).set("frame", pick(0, 5)).set("seed", (long long)seed64());
+        if (L >= 3 && pick(0, 4) == 0) cj.set("fork", pick(1, L - 1));
+        return cj;
     });
 }
 
